@@ -31,13 +31,13 @@ const (
 )
 
 type cellRun struct {
-	st      int
-	cc      []cellCond
-	vis     []string // opaque summands of the visible length
-	nsp     []string // opaque summands of the non-space count
-	n       int      // visible cells contributed by literals
-	ns      int      // non-space cells contributed by literals
-	onlySgr bool
+	st        int
+	cc        []cellCond
+	vis       []string // opaque summands of the visible length
+	nsp       []string // opaque summands of the non-space count
+	n         int      // visible cells contributed by literals
+	ns        int      // non-space cells contributed by literals
+	onlySgr   bool
 	unknownNs bool
 }
 
